@@ -180,7 +180,21 @@ def cmp_branch(p, b=None):
                                                      (b is None or a0[1][0][2] <= b.arg_count))
                     ok = is_query and a1[0] == 'ref' and bool(a1[1][1]) and a1[1][1][-1] == ('f', 'key')
                 return c[1], ok
+            if y[0] in ('call', 'pcall') and y[1].endswith('Fn::call') and c[0] == 'notin':
+                rest = [o for o in (LESS, EQUAL, GREATER) if o not in [int(z) for z in c[1]]]
+                if len(rest) == 1:
+                    return rest[0], cmp_branch_args_ok(y, b)
+                return ('many', tuple(rest)), cmp_branch_args_ok(y, b)
     return None, False
+
+
+def cmp_branch_args_ok(y, b=None):
+    args = strip_upd(y[2][1])
+    if args[0] == 'agg' and len(args[4]) == 2:
+        a0, a1 = strip_upd(args[4][0]), strip_upd(args[4][1])
+        is_query = a0[0] == 'param' or (a0[0] == 'ref' and a0[1][0][0] == 'loc' and a0[1][1] == () and (b is None or a0[1][0][2] <= b.arg_count))
+        return is_query and a1[0] == 'ref' and bool(a1[1][1]) and a1[1][1][-1] == ('f', 'key')
+    return False
 
 
 def final_local(b, p, name):
@@ -196,16 +210,23 @@ def child_followed(v):
     return m.group(1) if m else None
 
 
+def _orderings(p, b):
+    """the comparator outcomes a path stands for (a `_ =>` arm covers several)"""
+    o, ok = cmp_branch(p, b)
+    if o is None:
+        return []
+    if isinstance(o, tuple) and o[0] == 'many':
+        return [(x, ok) for x in o[1]]
+    return [(o, ok)]
+
+
 def check_direction(ctx, rep, rule='M-direction'):
     for fn, record_on, var in (('next', LESS, 'successor'), ('prev', GREATER, 'predecessor')):
         b, ps = rep.explore(ctx, T + fn, rule)
         if b is None:
             continue
         seen = set()
-        for p in ps:
-            o, args_ok = cmp_branch(p, b)
-            if o is None:
-                continue
+        for p, o, args_ok in [(p, o, a) for p in ps for (o, a) in _orderings(p, b)]:
             # locals are identified by what they hold, not by their names
             child = None
             recorded = False
@@ -247,7 +268,7 @@ def check_direction(ctx, rep, rule='M-direction'):
             if p.end != 'return':
                 continue
             o, args_ok = cmp_branch(p, b)
-            if o is None:
+            if o is None or isinstance(o, tuple):
                 continue
             pops = [short(e['callee']).split('::')[-1] for e in p.calls() if 'pop_' in e['callee']]
             links = [e['loc'][1][-1][1] for e in p.events if e['k'] == 'store' and e.get('depth', 0) == 0 and e['loc'][1]
@@ -277,7 +298,7 @@ def check_direction(ctx, rep, rule='M-direction'):
         seen = set()
         for p in ps:
             o, args_ok = cmp_branch(p, b)
-            if o is None:
+            if o is None or isinstance(o, tuple):
                 continue
             pops = [short(e['callee']).split('::')[-1] for e in p.calls() if 'pop_' in e['callee']]
             first = pops[0] if pops else None
@@ -310,6 +331,9 @@ def signature(p, b):
         if e.get('depth', 0) != 0:
             continue
         if e['k'] == 'call':
+            # plumbing of the `?` operator is not part of the shape
+            if re.search(r'(ops::Try>::branch|::from_residual)$', e['callee']):
+                continue
             sig.append('call:' + short(e['callee']).split('::')[-1])
         elif e['k'] == 'store':
             fs = [x[1] for x in e['loc'][1] if x[0] == 'f']
@@ -454,7 +478,8 @@ def check_lookup(ctx, rep, rule='M-lookup'):
             if p.end != 'return':
                 continue
             splays = [e for e in p.calls() if e['callee'].endswith('tree::splay')]
-            root_none = any(strip_upd(v)[0] == 'discr' and 'self.root' in show(noepoch(v)) and c == ('eq', 0) for (v, c) in p.conds)
+            root_none = any(strip_upd(v)[0] == 'discr' and 'self.root' in show(noepoch(v)) and
+                            (c == ('eq', 0) or (c[0] == 'notin' and 1 in [int(z) for z in c[1]])) for (v, c) in p.conds)
             k = ret_kind(p)
             if not splays:
                 ok = root_none and k == 'None'
@@ -522,6 +547,8 @@ def check_lookup(ctx, rep, rule='M-lookup'):
                 continue
             n_exit += 1
             o, _ = cmp_branch(p, b)
+            if isinstance(o, tuple):
+                o = None
             last = strip_upd(p.conds[-1][0]) if p.conds else ('?',)
             lc = p.conds[-1][1] if p.conds else None
             why = None
